@@ -68,7 +68,7 @@ def census():
             hdr = re.sub(r"<[^<>]*>", "", re.sub(r"<[^<>]*>", "", m.group(0)))
             ty = re.findall(r"\b([A-Z]\w*)\b", hdr.split(" for ")[-1])
             impls.append((m.start(), match_brace(s, m.end() - 1), ty[0] if ty else "?"))
-        for m in re.finditer(r"\bfn\s+(\w+)\s*(?:<[^>{(]*>)?\s*\(", s):
+        for m in re.finditer(r"\bfn\s+(\w+)\s*(?:<(?:[^<>{(]|<[^<>]*>)*>)?\s*\(", s):
             # end of the parameter list, then `{` (a body) or `;` (a declaration)
             d, i = 0, m.end() - 1
             while i < len(s):
